@@ -91,7 +91,7 @@ prop( 'C06', [ 'X-SERVICES', 'P-REPLYBIT', 'P-ONE', 'P-PROCEED', 'D-ECHO', 'S-ST
       not_decided='framing of reply values, randomness of session handles, socket-level pipelining behaviour (dynamic).',
       technique='sibling exhaustiveness (set comparison of folded constants); path effect counting on the CFG; must-pass-through; zero-count store rules' )
 
-prop( 'C17', [ 'T-CMP', 'T-DURATION' ],
+prop( 'C17', [ 'T-CMP', 'T-DURATION', 'T-LOCALIZE' ],
       decides='T-CMP: the six timestamp comparison operators form one family - __lt__/__gt__ shift by the class _epsilon = 10**-_precision, '
               '__le__/__ge__/__eq__/__ne__ are their negations/disjunction - and render( ms=True )/__str__ use the same _precision, so '
               'comparison and rendering resolution cannot drift apart; T-DURATION: each (unit, suffix) pair duration._format emits is the pair '
